@@ -99,6 +99,9 @@ pub use msg::message::{Message, MessageBuilder};
 mod message_frame;
 pub use message_frame::MessageFrame;
 
+#[cfg(rtcm_rs_verif)]
+pub mod verif;
+
 pub mod prelude {
     pub use crate::rtcm_error::RtcmError;
     #[cfg(feature = "test_gen")]
